@@ -20,6 +20,10 @@ type c14Recv struct {
 	T, IO string
 	ty    *CTy
 	data  *TV
+	// numeral: the strings in the data read as numbers. A function applied to such a string takes it as a number by design (the
+	// sibling properties say "strings that are not numerals"), so these receivers are evaluated for one thing only: First, Last
+	// and Index hand the element back as what the validator reports, a string.
+	numeral bool
 }
 
 func c14Receivers() []c14Recv {
@@ -29,24 +33,26 @@ func c14Receivers() []c14Recv {
 	objData := func(k string, n float64) *TV { return tvMap("str", [][2]any{{hx("k"), tvStr(k)}, {hx("n"), tvF64(n)}}) }
 	list := func(e *CTy) *CTy { return &CTy{T: "list", Open: 1, E: e} }
 	return []c14Recv{
-		{"String", "Single", &CTy{T: "string"}, tvStr("abcDEF")},
-		{"String", "Array", list(&CTy{T: "string"}), tvSlice(1, tvStr("abc"), tvStr("x"), tvStr("hello"))},
-		{"Number", "Single", &CTy{T: "number"}, tvF64(5)},
-		{"Number", "Array", list(&CTy{T: "number"}), tvSlice(1, tvF64(1), tvF64(2), tvF64(3.5))},
-		{"Boolean", "Single", &CTy{T: "bool"}, tvBool(true)},
-		{"Boolean", "Array", list(&CTy{T: "bool"}), tvSlice(1, tvBool(true), tvBool(false), tvBool(true))},
-		{"Object", "Single", obj(), objData("v", 2)},
-		{"Object", "Array", list(obj()), tvSlice(1, objData("v", 2), objData("w", 3), objData("x", 4))},
-		{"String", "Single", &CTy{T: "bytes"}, tvStr("abcDEF")},
-		{"String", "Array", list(&CTy{T: "bytes"}), tvSlice(1, tvStr("abc"), tvStr("x"))},
-		{"Number", "Single", &CTy{T: "int"}, tvF64(7)},
-		{"Number", "Array", list(&CTy{T: "float"}), tvSlice(1, tvF64(1.5), tvF64(2))},
-		{"Number", "Array", &CTy{T: "list", Open: 0, E: &CTy{T: "int"}}, tvSlice(1, tvF64(4))},
-		{"Number", "Array", list(&CTy{T: "number"}), tvSlice(1)}, // conforming data may be an empty list
-		{"String", "Array", list(&CTy{T: "string"}), tvSlice(1)},
-		{"Object", "Array", list(obj()), tvSlice(1)},
-		{"Any", "Single", &CTy{T: "top"}, tvStr("abc")},
-		{"Any", "Array", list(&CTy{T: "top"}), tvSlice(1, tvStr("a"), tvF64(1), tvBool(true))},
+		{"String", "Single", &CTy{T: "string"}, tvStr("abcDEF"), false},
+		{"String", "Array", list(&CTy{T: "string"}), tvSlice(1, tvStr("abc"), tvStr("x"), tvStr("hello")), false},
+		{T: "String", IO: "Array", ty: list(&CTy{T: "string"}), data: tvSlice(1, tvStr("12"), tvStr("ab"), tvStr("-0.50")), numeral: true},
+		{T: "String", IO: "Array", ty: list(&CTy{T: "string"}), data: tvSlice(0, tvStr("1e3"), tvStr("007")), numeral: true},
+		{"Number", "Single", &CTy{T: "number"}, tvF64(5), false},
+		{"Number", "Array", list(&CTy{T: "number"}), tvSlice(1, tvF64(1), tvF64(2), tvF64(3.5)), false},
+		{"Boolean", "Single", &CTy{T: "bool"}, tvBool(true), false},
+		{"Boolean", "Array", list(&CTy{T: "bool"}), tvSlice(1, tvBool(true), tvBool(false), tvBool(true)), false},
+		{"Object", "Single", obj(), objData("v", 2), false},
+		{"Object", "Array", list(obj()), tvSlice(1, objData("v", 2), objData("w", 3), objData("x", 4)), false},
+		{"String", "Single", &CTy{T: "bytes"}, tvStr("abcDEF"), false},
+		{"String", "Array", list(&CTy{T: "bytes"}), tvSlice(1, tvStr("abc"), tvStr("x")), false},
+		{"Number", "Single", &CTy{T: "int"}, tvF64(7), false},
+		{"Number", "Array", list(&CTy{T: "float"}), tvSlice(1, tvF64(1.5), tvF64(2)), false},
+		{"Number", "Array", &CTy{T: "list", Open: 0, E: &CTy{T: "int"}}, tvSlice(1, tvF64(4)), false},
+		{"Number", "Array", list(&CTy{T: "number"}), tvSlice(1), false}, // conforming data may be an empty list
+		{"String", "Array", list(&CTy{T: "string"}), tvSlice(1), false},
+		{"Object", "Array", list(obj()), tvSlice(1), false},
+		{"Any", "Single", &CTy{T: "top"}, tvStr("abc"), false},
+		{"Any", "Array", list(&CTy{T: "top"}), tvSlice(1, tvStr("a"), tvF64(1), tvBool(true)), false},
 	}
 }
 
@@ -158,7 +164,7 @@ func c14KindOK(ty, io string, v any) bool {
 }
 
 func genC14(c *Ctx) {
-	c.Rule = "exhaustive: every function of ListFunctions() x 10 receiver types (String, Number, Boolean, Object, Any; Single and Array) x conformant argument lists (exact count; variadic 0..2) and one over-long list, validated against a schema `input: {recv: <type>}`; oracle from the descriptor table: accept iff known, no more arguments than declared, ValidOn admits the receiver type, reported type = Returns (element type for First/Last/Index on a typed list); pairs whose only mismatch is Single-vs-Array under ValidOn Any are unspecified (class unspecified/..., not enforced). Every accepted conformant call is evaluated on data instantiated from the schema: the result must have the reported kind (array-ness only for Array results) or fail with a data-dependent error (Parse* on text that is not a document). Then random chains of two and three calls, validated and evaluated the same way. distinct = distinct (class, function, verdict)"
+	c.Rule = "exhaustive: every function of ListFunctions() x 10 receiver types (String, Number, Boolean, Object, Any; Single and Array) x conformant argument lists (exact count; variadic 0..2) and one over-long list, validated against a schema `input: {recv: <type>}`; oracle from the descriptor table: accept iff known, no more arguments than declared, ValidOn admits the receiver type, reported type = Returns (element type for First/Last/Index on a typed list); pairs whose only mismatch is Single-vs-Array under ValidOn Any are unspecified (class unspecified/..., not enforced). Every accepted conformant call is evaluated on data instantiated from the schema: the result must have the reported kind (array-ness only for Array results) or fail with a data-dependent error (Parse* on text that is not a document). Lists of strings that read as numbers (\"12\", \"-0.50\", \"1e3\", \"007\") are evaluated with First/Last/Index only (the element comes back as the string the validator reports); a function applied to such a string takes it as a number by design, which the sibling properties exclude in words (`strings that are not numerals`). Then random chains of two and three calls, validated and evaluated the same way. distinct = distinct (class, function, verdict)"
 	fns := mpath.ListFunctions()
 	names := funcNames()
 	recvs := c14Receivers()
@@ -234,6 +240,9 @@ func genC14(c *Ctx) {
 		if !accept || !conformant {
 			return
 		}
+		if rc.numeral && !(len(calls) == 1 && (calls[0].N == "First" || calls[0].N == "Last" || calls[0].N == "Index")) {
+			return
+		}
 		// evaluate on conforming data
 		data := tvMap("str", [][2]any{{hx("input"), tvMap("str", [][2]any{{hx("recv"), rc.data}})}})
 		out := runCase(q, buildAny(data))
@@ -298,6 +307,9 @@ func genC14(c *Ctx) {
 	n := c.scale(6000, 60000)
 	for i := 0; i < n; i++ {
 		rc := recvs[c.R.Intn(len(recvs))]
+		for rc.numeral {
+			rc = recvs[c.R.Intn(len(recvs))]
+		}
 		depth := 2 + c.R.Intn(2)
 		var calls []c14Call
 		pt, pio := rc.T, rc.IO
